@@ -74,6 +74,7 @@ func main() {
 	progress := flag.String("progress", "", "progress file")
 	only := flag.Int("only", -1, "run only this case index (replay)")
 	covKey := flag.String("covkey", "", "per-case coverage flag that makes a case non-trivial")
+	relProc := flag.Bool("relcache-process", false, "C12: reuse world-independent relation argument lists across all cases of the process")
 	matrix := flag.Bool("matrix", false, "C14: scripted method matrix per tuple at the start of every case")
 	gcMode := flag.String("gc", "", "C11: 'stress' (background allocation + forced GCs) or 'collect' (finalizer-based collectability checks)")
 	flag.Parse()
@@ -100,6 +101,8 @@ func main() {
 		}
 	}
 	o.Matrix = *matrix
+	o.CapChoices = p.Caps
+	o.RelCacheProcess = *relProc
 	var gcm *eng.GCMon
 	switch *gcMode {
 	case "stress":
@@ -220,6 +223,9 @@ func main() {
 	res.Counters["panics"] = st.Panics
 	res.Counters["expected-panics"] = st.ExpPanics
 	res.Counters["observers-registered-after-serving-in-another-world"] = st.ObserverReuse
+	res.Counters["late-type-round-trips"] = st.LateRoundTrips
+	res.Counters["relation-lists-reused-by-another-world"] = st.RelListsShared
+	res.Counters["stats-calls-inside-callbacks"] = st.StatsInCallback
 	res.Counters["running-batch-filter-reused-inside-callback"] = st.FilterReuse
 	res.Counters["locked-table-rows-tried-inside-callbacks"] = st.NestedRows
 	res.Counters["bystander-world-batch-ops-inside-callbacks"] = st.BystanderOps
